@@ -312,11 +312,17 @@ var propC04 = &Prop[BranchCase]{
 			c.Filler = rapid.IntRange(110, 140).Draw(t, "filler")
 		case 1:
 			c.Filler = rapid.SampledFrom(c04Fillers[141:]).Draw(t, "filler")
+		case 2:
+			// beyond 64 KiB: every byte of a rel32 matters (32-bit mode; in 16-bit mode the address wraps)
+			c.Filler = rapid.SampledFrom([]int{65530, 65534, 65535, 65536, 65540, 70000, 300000, 0x1000000 + 5}).Draw(t, "filler")
+			if c.Mode != 32 {
+				c.Filler = rapid.IntRange(0, 300).Draw(t, "filler16")
+			}
 		default:
 			c.Filler = rapid.IntRange(0, 300).Draw(t, "filler")
 		}
 		if c.Kind == "chain" {
-			k := rapid.IntRange(2, 5).Draw(t, "chainlen")
+			k := rapid.IntRange(2, 7).Draw(t, "chainlen")
 			for i := 0; i < k; i++ {
 				c.Chain = append(c.Chain, rapid.SampledFrom(branchMnemonics()).Draw(t, "chmn"))
 				if i == 0 {
@@ -381,6 +387,17 @@ var propC04 = &Prop[BranchCase]{
 						}
 						yield(c)
 					}
+				}
+			}
+		}
+		// 32-bit mode, distances beyond 64 KiB and 16 MiB (all four displacement bytes are significant)
+		for _, mn := range []string{"JMP", "CALL", "JE", "JNBE"} {
+			for _, kind := range []string{"fwd", "bwd"} {
+				for _, f := range []int{65530, 65535, 65536, 65541, 70000, 0x1000003} {
+					if tier == "quick" && f > 70000 {
+						continue
+					}
+					yield(BranchCase{Mode: 32, Org: -1, Mn: mn, Kind: kind, Filler: f, Trailing: true})
 				}
 			}
 		}
